@@ -566,6 +566,7 @@ func runC05W1(c *Ctx) {
 
 // pathAvoidingFromBlockTo: a path from the start of block b to the start of block target avoiding matched instructions.
 func pathAvoidingFromBlockTo(b, target *ssa.BasicBlock, avoid func(ssa.Instruction) bool) bool {
+	avoid = liftMust(avoid, 1) // a helper that does it on all of its paths counts
 	seen := map[*ssa.BasicBlock]bool{b: true}
 	stack := []*ssa.BasicBlock{b}
 	for len(stack) > 0 {
